@@ -1447,7 +1447,8 @@ def c23_hashfields(R):
             if k.arg and isinstance(k.value, ast.Attribute) and isinstance(k.value.value, ast.Name) and k.value.value.id == "self":
                 carried[k.arg] = k.value.attr
     R.need(len(carried) >= 6, "copy() no longer passes the interval's fields by keyword")
-    presentation = {"name": "a label, not part of the value", "bottom": "bottom is encoded in the bounds as well", "uninitialized": "provenance flag"}
+    # `bottom` is NOT presentation: empty() has the bounds and stride of TOP, and only the flag tells them apart
+    presentation = {"name": "a label, not part of the value", "uninitialized": "provenance flag"}
     hashed = {a.lstrip("_") for a, _ in util.attr_reads(h, "self")}
     for kw_, attr in sorted(carried.items()):
         if kw_ in presentation:
